@@ -121,9 +121,18 @@ def r01_1_search(ctx, m):
             return "qe"
         return None
 
-    paths = enum_paths(f.node.body, rule="R01.1", where=f.where())
+    wloops = [w for w in f.node.body if isinstance(w, ast.While)]
+    iterative = bool(wloops) and any(x is mids[0] for x in ast.walk(wloops[0]))
+    paths = enum_paths(wloops[0].body if iterative else f.node.body, rule="R01.1", where=f.where())
 
     def outcome(p):
+        if iterative and p.term in ("fall", "continue", "loopback"):
+            asg = {norm(e.node.targets[0]): norm(e.node.value) for e in p.events if e.kind == "stmt" and isinstance(e.node, ast.Assign) and norm(e.node.targets[0]) in (lo, hi)}
+            if asg == {hi: f"{mid} - 1"}:
+                return "left"
+            if asg == {lo: f"{mid} + 1"}:
+                return "right"
+            return "bad-window:" + str(asg)
         if p.term != "return" or p.term_node.value is None:
             return "none"
         v = p.term_node.value
@@ -162,7 +171,7 @@ def r01_1_search(ctx, m):
             break
     ctx.check(bad is None, "R01.1", f.where(), "binary search over the SO-sorted segments: descends left only when qe <= s(mid), right only when qs >= e(mid), otherwise returns the current inclusive window", key_of(f, f"search-table:{bad['ordering'] if bad else ''}"), rows=rows, **({"witness": bad} if bad else {}))
     # base case: the inclusive window [start, end] is non-empty exactly when start <= end
-    guards = [st for st in f.node.body if isinstance(st, ast.If) and lo in names_in(st.test) and hi in names_in(st.test)]
+    guards = [st for st in f.node.body if isinstance(st, (ast.If, ast.While)) and lo in names_in(st.test) and hi in names_in(st.test)]
     badg = None
     if guards:
         def atom2(e):
